@@ -68,6 +68,7 @@ def monitor(line, obs):
 
 
 def run(tier, rng, C):
+    C.RELEASE_TOO[0] = False      # this check runs ALL its cases against the release build itself (below)
     cases = gen(tier, rng)
     det = [c for c in cases if c[0].startswith("PKCE ")]
     rnd = [c for c in cases if c[0].startswith("PKCERAND")]
